@@ -247,4 +247,19 @@ PROPS = {
         'trusted_base': ['new_merged_map as an abstract callee returning a new AstMap (its conflict list is what has_conflicts reads)',
                          'deep_find_match*, shallow_match*, add_x_to_sym_table, merge_map_with, any_node_match: bounded part only'],
     },
+    'C14': {
+        'sidecars': ['contracts/c14_timeout.py'],
+        'native': 'c14', 'ground': False,
+        'level': 'other',
+        'explanation': 'Sequential part proved from the real source: timeout() starts and joins the worker once, terminates it at most '
+                       'once, returns only if nobody was terminated and raises a TimeoutError whenever it terminated the worker; '
+                       'Sandbox._execute_with_timeout turns a TimeoutError into exactly one captured runtime report, stops the top '
+                       'patch group once, returns the sandbox and never lets a TimeoutError escape; other failures travel on '
+                       'unreported. The property itself quantifies over interleavings of two threads on unsynchronised state, '
+                       'which no function contract expresses: the bounded stand-in B-timeout-schedules forces each ordering of the '
+                       'two handlers and of the next execution through the guarded hook points on real threads.',
+        'trusted_base': ['InterruptableThread.start/join/is_alive/terminate and ctypes async exception delivery: abstract callees',
+                         '_stop_patches (verified under C04/C05) and _capture_exception (bounded under C04) as assumed contracts',
+                         'thread interleavings: only the 5 forced orderings x 5 programs of the bounded stand-in'],
+    },
 }
